@@ -64,3 +64,17 @@ Fixpoint be_bytes (k : nat) (v : N) : bytes :=
 (* the byte string of a field list whose total width is a multiple of 8 *)
 Definition pack_fields (fs : list field) : bytes :=
   be_bytes (N.to_nat (fields_width fs / 8)) (fields_val fs).
+
+(* ---- compact large cases: a deterministic payload and a position-sensitive checksum, computed
+   identically by the Go harness, so that cases of 64 KiB .. MiB need neither the payload in the
+   case text nor in the observation ---- *)
+Fixpoint gen_payload (n : nat) (i fill : N) : bytes :=
+  match n with
+  | O => []
+  | S n' => ((fill + 31 * i + i / 256) mod 256) :: gen_payload n' (i + 1) fill
+  end.
+
+(* Adler-32 *)
+Definition adler32 (b : bytes) : N :=
+  let '(a, s) := fold_left (fun '(a, s) x => let a' := (a + x) mod 65521 in (a', (s + a') mod 65521)) b (1, 0) in
+  s * 65536 + a.
